@@ -302,6 +302,8 @@ def cases(g):
     yield 'squeeze', lambda np: np.array(A).squeeze()
     yield 'squeeze.ax', lambda np: np.array(A).squeeze(ax)
     yield 'reshape', lambda np: np.array(A).reshape((-1,) + sh[-1:])
+    for order in ('C', 'F', 'A'):
+        yield 'reshape.%s' % order, (lambda np, order=order: (np.array(A).reshape((-1,), order=order), np.array(A).T.reshape(sh, order=order), np.array(A).T.reshape((-1,) + sh[:1], order=order)))
     yield 'ravel.tolist', lambda np: np.array(A).ravel().tolist()
     yield 'repeat', lambda np: np.array(A).repeat(r.randint(1, 3), ax)
     yield 'newaxis', lambda np: np.array(A)[(slice(None),) * r.randint(0, len(sh)) + (np.newaxis,)]
